@@ -35,7 +35,7 @@ import itertools, math, re
 import numpy as np
 from fractions import Fraction
 from . import gen, exact
-from .c12 import pair_jumps
+from .c12 import pair_jumps, reorder_network
 from .lib import CoqFailure, coq_Z, coq_list, coq_nat
 
 RTOL = 1e-9
@@ -420,10 +420,15 @@ def run(ck):
         if net is None:
             skipped["nonpercolating"] += 1; continue
         cut, sl, jn = net
+        # half of the networks are listed by hand in another order (classes shuffled, jumps shuffled inside the classes: a jump
+        # is not followed by its reverse, the representative = first jump changes); the class allows hand-built networks
+        jn_canon, cmap = jn, None
+        if rng.random() < 0.5:
+            jn, cmap = reorder_network(jn, rng); label = label.replace("-general", "~reordered-general") if label.endswith("-general") else label + "~reordered"
         d = OnsagerCalc.Interstitial(crys, chem, sl, jn)
         dim = crys.dim
         interleaved = any(list(w) != list(range(min(w), min(w) + len(w))) for w in sl) or [w[0] for w in sl] != sorted(w[0] for w in sl)
-        kind = "%dD-N%d-W%d-NV%d-%s%s" % (dim, d.N, len(sl), d.NV, label if label.endswith("-general") else label.split("-")[0], "-interleaved" if interleaved else "")
+        kind = "%dD-N%d-W%d-NV%d-%s%s" % (dim, d.N, len(sl), d.NV, label if label.endswith("-general") else label.split("-")[0], ("-interleaved" if interleaved else "") + ("-reordered" if cmap else ""))
         nr = ck.nprng(rng.randrange(1 << 30))
         inp, ex = random_input(rng, nr, sl, jn, dim)
         rep = {"crystal": repr(crys), "chem": chem, "cutoff": cut, **inp}
@@ -438,6 +443,22 @@ def run(ck):
         ck.case(key=(label, round(cut, 5), inp["pre"], "populate"), nontrivial=nj >= 2, kind="populate:" + kind)
         for key, msg in bad: ck.violation(msg, rep, key=key)
         scaleD = max(np.abs(D).max(), 1e-300)
+        if cmap is not None:
+            # listing-order invariance: the canonical listing with the same physics (transition dipole of its representative = the
+            # populated dipole of that jump) must give the same D, Db and elastodiffusion tensor
+            d0 = OnsagerCalc.Interstitial(crys, chem, sl, jn_canon)
+            pT0 = [None] * len(jn); bT0 = [None] * len(jn); dT0 = [None] * len(jn)
+            for c2, (c, idx) in enumerate(cmap):
+                pT0[c] = inp["preT"][c2]; bT0[c] = inp["bET"][c2]; dT0[c] = np.array(Pj[c2][idx.index(0)])
+            Dc, Dbc = d0.diffusivity(inp["pre"], inp["bE"], pT0, bT0, CalcDeriv=True)
+            _, Dpc = d0.elastodiffusion(inp["pre"], inp["bE"], dipA, pT0, bT0, dT0)
+            pm = max(max(np.abs(np.array(P)).max() for P in list(inp["dipole"]) + list(inp["dipoleT"])), 1.0)
+            eo = max(np.abs(Dc - D).max() / scaleD, np.abs(Dbc - Db).max() / (scaleD * max(max(inp["bET"]), 1.0)), np.abs(Dpc - Dp).max() / (scaleD * pm))
+            ck.case(key=(label, round(cut, 5), inp["pre"], "order"), nontrivial=nj >= 2, kind="listing-order:" + kind)
+            if not (eo <= RTOL):
+                ck.violation("diffusivity / barrier tensor / elastodiffusion depend on the order in which the jump network lists its classes and jumps: "
+                             "relative difference %.3g between the hand-ordered and the canonical listing" % eo,
+                             {**rep, "class_order": [c for c, _ in cmap], "within_class_order": [idx for _, idx in cmap]}, key="c11-listing-order")
         if np.abs(D0 - D).max() > RTOL * scaleD:
             ck.violation("elastodiffusion returns a diffusivity differing from diffusivity() by %.3g" % np.abs(D0 - D).max(), rep, key="c11-elasto-D")
         # ---- float envelope + FD, beta
